@@ -30,6 +30,18 @@ class ReturnEx(Exception):
         self.value = value
 
 
+def _deep_eq(a, b):
+    """== as derive(PartialEq) gives it: a NaN payload is unequal to itself (python's container comparison would
+    short-cut on object identity)"""
+    if isinstance(a, float) and a != a:
+        return False
+    if isinstance(b, float) and b != b:
+        return False
+    if isinstance(a, (list, tuple)) and isinstance(b, (list, tuple)):
+        return len(a) == len(b) and all(_deep_eq(x, y) for x, y in zip(a, b))
+    return a == b
+
+
 class Enum:
     """An enum (or struct) value: adt short name, variant, fields."""
     __slots__ = ("adt", "variant", "fields")
@@ -40,7 +52,9 @@ class Enum:
         self.fields = fields or {}
 
     def __eq__(self, o):
-        return isinstance(o, Enum) and (self.adt, self.variant, self.fields) == (o.adt, o.variant, o.fields)
+        if not (isinstance(o, Enum) and self.adt == o.adt and self.variant == o.variant and self.fields.keys() == o.fields.keys()):
+            return False
+        return all(_deep_eq(v, o.fields[k]) for k, v in self.fields.items())
 
     def __hash__(self):
         return hash((self.adt, self.variant, tuple(sorted((k, repr(v)) for k, v in self.fields.items()))))
@@ -374,7 +388,10 @@ class Interp:
                 if isinstance(v, bool):
                     return not v
                 if isinstance(v, int):
-                    bits = INT_BITS.get(e.get("ty", ""), 64)
+                    ty_ = e.get("ty", "")
+                    if ty_.startswith("i"):
+                        return ~v               # two's complement: !x == -x - 1 at any signed width
+                    bits = INT_BITS.get(ty_, 64)
                     return (~v) & ((1 << bits) - 1)
             if e["op"] == "Neg" and isinstance(v, (int, float)):
                 return -v
@@ -795,7 +812,9 @@ class Interp:
             v1 = self.ev(args[1], env, depth)
             return Enum("Option", "Some", {"0": v1 if short(gen) == "then_some" else self.call_callable(v1, [], depth)})
         if gen.startswith("core::num::<impl ") and short(gen) in ("next_multiple_of", "next_power_of_two", "max", "min", "pow", "abs", "unsigned_abs",
-                                                                  "wrapping_add", "wrapping_sub", "wrapping_mul", "checked_add", "checked_sub", "checked_mul", "saturating_sub"):
+                                                                  "wrapping_add", "wrapping_sub", "wrapping_mul", "checked_add", "checked_sub", "checked_mul", "saturating_sub",
+                                                                  "wrapping_rem", "wrapping_div", "wrapping_shl", "wrapping_shr", "wrapping_neg", "checked_div", "checked_rem",
+                                                                  "checked_neg", "checked_shl", "checked_shr"):
             m = short(gen)
             ty = gen[len("core::num::<impl "):].split(">")[0]
             a0 = self.ev(args[0], env, depth)
@@ -824,6 +843,33 @@ class Interp:
                 return max(a0, rest[0]) if m == "max" else min(a0, rest[0])
             if m in ("abs", "unsigned_abs"):
                 return abs(a0)
+            def tdiv(x, y):
+                return abs(x) // abs(y) * (1 if (x >= 0) == (y >= 0) else -1)
+
+            def trem(x, y):
+                return abs(x) % abs(y) * (1 if x >= 0 else -1)
+            if m in ("wrapping_neg", "checked_neg"):
+                r = -a0
+                if m == "wrapping_neg":
+                    return wrapv(r)
+                return Enum("Option", "Some", {"0": r}) if lo <= r <= hi else Enum("Option", "None")
+            if m in ("wrapping_shl", "wrapping_shr"):
+                sh = rest[0] & (bits - 1)       # the shift amount is masked to the width
+                return wrapv(a0 << sh) if m == "wrapping_shl" else (a0 >> sh)
+            if m in ("checked_shl", "checked_shr"):
+                if not 0 <= rest[0] < bits:
+                    return Enum("Option", "None")
+                return Enum("Option", "Some", {"0": wrapv(a0 << rest[0]) if m == "checked_shl" else (a0 >> rest[0])})
+            if m in ("wrapping_div", "wrapping_rem", "checked_div", "checked_rem"):
+                if rest[0] == 0:
+                    if m.startswith("checked_"):
+                        return Enum("Option", "None")
+                    raise Unknown("core::panicking: division by zero")
+                r = tdiv(a0, rest[0]) if m.endswith("div") else trem(a0, rest[0])
+                if m.startswith("wrapping_"):
+                    return wrapv(r)
+                overflow = ty.startswith("i") and a0 == lo and rest[0] == -1
+                return Enum("Option", "None") if overflow else Enum("Option", "Some", {"0": r})
             if m.startswith("wrapping_"):
                 return wrapv({"add": a0 + rest[0], "sub": a0 - rest[0], "mul": a0 * rest[0]}[m[9:]])
             if m.startswith("checked_"):
@@ -833,6 +879,11 @@ class Interp:
                 return max(lo, a0 - rest[0])
             if m == "pow":
                 return a0 ** rest[0]
+        if gen in ("core::ops::bit::BitAnd::bitand", "core::ops::bit::BitOr::bitor", "core::ops::bit::BitXor::bitxor"):
+            a0, b0 = self.ev(args[0], env, depth), self.ev(args[1], env, depth)
+            a0 = a0.get() if isinstance(a0, Ref) else a0
+            b0 = b0.get() if isinstance(b0, Ref) else b0
+            return self.binop({"bitand": "BitAnd", "bitor": "BitOr", "bitxor": "BitXor"}[short(gen)], a0, b0)
         if gen in ("core::cmp::Ord::max", "core::cmp::Ord::min", "core::cmp::max", "core::cmp::min"):
             a0, b0 = self.ev(args[0], env, depth), self.ev(args[1], env, depth)
             if isinstance(a0, (int, float)) and isinstance(b0, (int, float)):
@@ -1138,6 +1189,14 @@ class Interp:
             if isinstance(v, bool) and e.get("ty") in INT_BITS:
                 return int(v)
             callee = self.facts.bodies.get(cal)
+            if callee is None and gen == "core::convert::Into::into" and len(e.get("targs") or []) == 2:
+                # the blanket impl: T::into() is <U as From<T>>::from
+                src, dst = e["targs"]
+                imp = self.facts.bodies.get("<%s as core::convert::From<%s>>::from" % (dst, src))
+                if imp is not None and depth < self.max_depth:
+                    return self.apply(imp, [v], depth + 1)
+                if src != dst and src.startswith("rssl") and dst.startswith("rssl"):
+                    raise Unknown("conversion %s -> %s" % (src, dst))
             if callee is None:
                 return v
         callee = self.facts.bodies.get(cal)
@@ -1189,6 +1248,12 @@ class Interp:
             return self.call_callable(ev(0), [x], depth) if some else v
         if m == "ok_or":
             return Enum("Result", "Ok", {"0": x}) if some else Enum("Result", "Err", {"0": ev(0)})
+        if m == "ok_or_else":
+            return Enum("Result", "Ok", {"0": x}) if some else Enum("Result", "Err", {"0": self.call_callable(ev(0), [], depth)})
+        if m == "map_err":
+            return v if some else Enum("Result", "Err", {"0": self.call_callable(ev(0), [v.fields.get("0")], depth)})
+        if m == "err":
+            return Enum("Option", "None") if some else Enum("Option", "Some", {"0": v.fields.get("0")})
         if m == "ok":
             return Enum("Option", "Some", {"0": x}) if some else Enum("Option", "None")
         if m in ("as_ref", "as_mut", "as_deref", "copied", "cloned", "take"):
